@@ -23,19 +23,20 @@ Proof.
   destruct H. assumption.
 Qed.
 
-(* a rejection restores exactly the state of the last acceptance (metric and factor) *)
+(* a rejection restores exactly the state of the last acceptance (metric, factor and reference pair) *)
 Theorem bfgs_reject_restores ops1 traj :
   Forall (fun o => match o with Update _ _ => True | _ => False end) traj ->
   let s_acc := brun (ops1 ++ [Accept]) in
   let s_rej := brun (ops1 ++ [Accept] ++ traj ++ [Reject]) in
-  minv s_rej = minv s_acc /\ lt_of s_rej = lt_of s_acc.
+  minv s_rej = minv s_acc /\ lt_of s_rej = lt_of s_acc /\ refp s_rej = refp s_acc.
 Proof.
   intros Ht. cbv zeta. unfold brun. rewrite !fold_left_app.
   change (fold_left bstep [Accept] ?s) with (bstep s Accept).
   set (s0 := bstep (fold_left bstep ops1 binit) Accept).
-  assert (Hb : forall s, bk_minv (fold_left bstep traj s) = bk_minv s /\ bk_lt (fold_left bstep traj s) = bk_lt s).
+  assert (Hb : forall s, bk_minv (fold_left bstep traj s) = bk_minv s /\ bk_lt (fold_left bstep traj s) = bk_lt s
+                         /\ bk_ref (fold_left bstep traj s) = bk_ref s).
   { induction Ht as [|o traj Ho Ht IH]; intros s; simpl; [auto|].
     destruct o as [pos ok| |]; try contradiction.
-    destruct (IH (bstep s (Update pos ok))) as [A B]. rewrite A, B. simpl. destruct ok; auto. }
-  destruct (Hb s0) as [A B]. cbn [fold_left bstep minv lt_of]. rewrite A, B. unfold s0. simpl. auto.
+    destruct (IH (bstep s (Update pos ok))) as [A [B C]]. rewrite A, B, C. simpl. destruct ok; auto. }
+  destruct (Hb s0) as [A [B C]]. cbn [fold_left bstep minv lt_of refp]. rewrite A, B, C. unfold s0. simpl. auto.
 Qed.
